@@ -22,7 +22,7 @@ class Mismatch(Exception):
         self.detail = detail
 
     def describe(self):
-        return {"what": self.what, **{k: enc(v) if not isinstance(v, (str, int)) else v
+        return {"what": self.what, **{k: enc(v) if not isinstance(v, (str, int)) and k != "step" else v
                                       for k, v in self.detail.items()}}
 
 
@@ -111,8 +111,10 @@ def touched_children(kind, m, a, kw, n_before, model_out, real_out):
 
 class World:
     def __init__(self, ci, directory, initial=ABSENT, nres=1, check_outcome=True,
-                 check_resource=True, initial_docs=None):
+                 check_resource=True, initial_docs=None, excl=()):
         self.ci = ci
+        self.excl = set(excl)      # active known-finding exclusions (by construction)
+        self.excluded = 0
         self.dir = directory
         self.check_outcome = check_outcome
         self.check_resource = check_resource
@@ -313,10 +315,14 @@ class World:
                     self.may_be_absent[h.res] = False
                 sel = touched_children(h.kind, m, a, kw, n_before, model, real)
                 P = h.path
+                shared = "shared_tree_detach" in self.excl and self.ci.buffered == "memory"
                 for g in self.handles:
-                    if g.attached and g.obj == h.obj and len(g.path) > len(P) and g.path[:len(P)] == P:
+                    same = g.obj == h.obj or (shared and g.res == h.res)
+                    if g.attached and same and len(g.path) > len(P) and g.path[:len(P)] == P:
                         if sel is ALL or g.path[len(P)] in sel:
                             g.attached = False
+                            if g.obj != h.obj:
+                                self.excluded += 1
             elif before_doc != self.docs[h.res]:
                 raise HarnessError(f"model mutated by a raising op {m} {a!r}")
             self.revalidate()
